@@ -179,6 +179,9 @@ pub struct ArgCtx {
     pub explicit_id_8: u32,
     /// only InsertPoint::End (used when position is compared against the built module simply)
     pub insert_end_only: bool,
+    /// (enumeration name, value): used with probability 3/4 for arguments of that enumeration, so that the
+    /// calls of one history agree on e.g. a storage class (relations between the arguments of different calls)
+    pub prefer_enum: Vec<(&'static str, u32)>,
 }
 
 pub struct RandArgs<'a> {
@@ -256,6 +259,11 @@ impl<'a> RandArgs<'a> {
             let v = *self.rng.pick(&ok);
             self.mode_params = Some(d.params_seq(k, v).len());
             return v;
+        }
+        if let Some((_, pv)) = self.ctx.prefer_enum.iter().find(|(n, _)| *n == ty) {
+            if self.rng.chance(3, 4) {
+                return *pv;
+            }
         }
         for _ in 0..200 {
             let v = match decls::kind_class(k) {
